@@ -85,22 +85,55 @@ class Aff:
         best = self._lo(rng)
         facts = getattr(rng, "facts", None)
         if facts and self.t:
-            mine = {a for a, _ in self.t}
+            mine = dict(self.t)
             for f in facts:
-                if any(a in mine for a, _ in f.t):
-                    v = (self - f)._lo(rng)
+                ks = {1}
+                for a, cf in f.t:
+                    ce = mine.get(a)
+                    if ce is not None and ce % cf == 0 and ce // cf > 0:
+                        ks.add(ce // cf)       # multiple of the fact that eliminates atom a
+                if len(ks) == 1 and not any(a in mine for a, _ in f.t):
+                    continue
+                for k in ks:
+                    v = (self - f.scale(k))._lo(rng)
                     if v > best:
                         best = v
+        return best
+
+    def lo2(self, rng):
+        """like lo(), but may combine two facts"""
+        best = self.lo(rng)
+        facts = getattr(rng, "facts", None)
+        if not facts or not self.t:
+            return best
+        mine = dict(self.t)
+        for f in facts:
+            ks = set()
+            for a, cf in f.t:
+                ce = mine.get(a)
+                if ce is not None and ce % cf == 0 and ce // cf > 0:
+                    ks.add(ce // cf)
+            for k in ks:
+                v = (self - f.scale(k)).lo(rng)
+                if v > best:
+                    best = v
         return best
 
     def hi(self, rng):
         best = self._hi(rng)
         facts = getattr(rng, "facts", None)
         if facts and self.t:
-            mine = {a for a, _ in self.t}
+            mine = dict(self.t)
             for f in facts:
-                if any(a in mine for a, _ in f.t):
-                    v = (self + f)._hi(rng)
+                ks = {1}
+                for a, cf in f.t:
+                    ce = mine.get(a)
+                    if ce is not None and (-ce) % cf == 0 and (-ce) // cf > 0:
+                        ks.add((-ce) // cf)
+                if len(ks) == 1 and not any(a in mine for a, _ in f.t):
+                    continue
+                for k in ks:
+                    v = (self + f.scale(k))._hi(rng)
                     if v < best:
                         best = v
         return best
@@ -240,6 +273,13 @@ def le_proved(a, b, rng, strict=False):
     if b.slo is not None:
         l = b.slo.lo(rng)
         if l != -INF and a.nhi + d <= l:
+            return True
+    # last resort: two facts combined
+    if a.shi is not None and b.slo is not None:
+        if (b.slo - a.shi).lo2(rng) >= d:
+            return True
+    if a.shi is not None and b.slo is None and b.nlo == b.nhi:
+        if (Aff(b.nlo) - a.shi).lo2(rng) >= d:
             return True
     return False
 
